@@ -36,6 +36,14 @@ DIRECT = {
 }
 
 
+# embedded date / time patterns given by every standard letter of the embedded type (and a custom one), in both orders
+for _d in ("R", "r", "d", "D", "uuuu'-'MM'-'dd"):
+    for _t in ("o", "O", "r", "t", "T", "HH':'mm"):
+        FIXED["LocalDateTime"] += [f"ld<{_d}>'T'lt<{_t}>", f"lt<{_t}> ld<{_d}>"]
+FIXED["LocalDateTime"] += ["l<F>", "l<s> 'x'", "'at' l<o>"]
+FIXED["Instant"] += ["ld<R>'T'lt<o>'Z'", "ld<r> lt<O>", "lt<r> ld<D>", "ld<d> lt<T>"]
+
+
 def shards(tier, seed):
     q = tier == "quick"
     out = []
